@@ -139,16 +139,16 @@ func crashWhere(r *core.ChildResult) (ci crashInfo, doneCases map[int]*caseResul
 	ci.Case, ci.Batch = -1, -1
 	for _, l := range r.Log {
 		var m struct {
-			Plugin *string  `json:"plugin"`
-			Case   *int     `json:"case"`
-			Seed   int64    `json:"seed"`
-			Cfg    string   `json:"cfg"`
-			Done   *int     `json:"done"`
+			Plugin *string     `json:"plugin"`
+			Case   *int        `json:"case"`
+			Seed   int64       `json:"seed"`
+			Cfg    string      `json:"cfg"`
+			Done   *int        `json:"done"`
 			Result *caseResult `json:"result"`
-			Batch  *int     `json:"batch_no"`
-			Shape  string   `json:"shape"`
-			Retry  bool     `json:"retry"`
-			Events []string `json:"events"`
+			Batch  *int        `json:"batch_no"`
+			Shape  string      `json:"shape"`
+			Retry  bool        `json:"retry"`
+			Events []string    `json:"events"`
 		}
 		if json.Unmarshal(l, &m) != nil {
 			continue
